@@ -16,6 +16,11 @@ let scripted (ops : string list) : string =
          | 'R' -> (match split_on ':' (String.sub op 1 (String.length op - 1)) with
              | t :: _ -> step (HEnter (n_of_int (int_of_string t), KRecv)) | [] -> ())
          | 'C' -> step (HEnter (num op 1, KConn))
+         (* O: a connectSync whose timeout has fired and which is held in its timeout path: it is still counted, the model's
+            HTimeout step (decrement + result) is the moment it returns, i.e. U *)
+         | 'O' -> (match split_on ':' (String.sub op 1 (String.length op - 1)) with
+             | t :: _ -> step (HEnter (n_of_int (int_of_string t), KConn)) | [] -> ())
+         | 'U' -> step (HTimeout (num op 1))
          | 'F' -> step (HEnter (num op 1, KFlush))
          | 'N' -> (match split_on ':' (String.sub op 1 (String.length op - 1)) with
              | [t; k] -> step (HEnter (n_of_int (int_of_string t), (match k with "r" -> KRecv | "c" -> KConn | _ -> KFlush)))
